@@ -76,6 +76,9 @@ def build():
                                                      (r'ConstrSet constrMask;', 'ConstrSet constrMask = CONSTRSET_ZERO;', 1)],
       extra_locals={})
     P(CS_C, 'CspSolver::solveRecursive')
+    # the consistency test of the backtracking search (inner loop of solveRecursive): from the copy of varToConstr[varNo] to the use of allValid
+    U.fragment(CS_C, 'CspSolver_solveRecursive_check', r'ConstrSet constrMask = varToConstr\[varNo\];', r'if \(allValid\) \{', within='CspSolver::solveRecursive',
+               params=[('int', 'varNo', False), ('std::vector<int>', 'values', True)], ret='bool', cls='CspSolver', is_static=False, epilogue='\n    return allValid;\n')
     U.passthrough('CONSTRSET_ZERO', 'Domain_ne', 'ConstrSet_orAssign')
     U.raw('#define CONSTRSET_ZERO ((struct ConstrSet){{0, 0, 0}})\n')
     return U
@@ -129,7 +132,9 @@ def _bitset_contracts(name, HAS, EMPTY, lo, hi, nwords):
     C[name + '_setBit'] = {'requires': [S, inr('i')], 'assigns': ['*self'],
                            'ensures': ['%s(*self, i)' % HAS, '%s != i ==> %s(*self, %s) == %s' % (e, HAS, e, oldhas)]}
     C[name + '_clearBit'] = {'requires': [S, inr('i')], 'assigns': ['*self'],
-                             'ensures': ['!%s(*self, i)' % HAS, '%s != i ==> %s(*self, %s) == %s' % (e, HAS, e, oldhas)]}
+                             'ensures': ['!%s(*self, i)' % HAS, '%s != i ==> %s(*self, %s) == %s' % (e, HAS, e, oldhas),
+                                         # word level: the result is a subset of the old set
+                                         ' && '.join('(self->data[%d] & ~__CPROVER_old(self->data[%d])) == 0' % (w, w) for w in range(nwords))]}
     C[name + '_getBit'] = {'requires': [S, inr('i')], 'assigns': [], 'ensures': ['__CPROVER_return_value == %s(*self, i)' % HAS]}
     C[name + '_empty'] = {'requires': [S], 'assigns': [], 'ensures': ['__CPROVER_return_value == %s(*self)' % EMPTY, '__CPROVER_return_value ==> !%s(*self, %s)' % (HAS, e)]}
     C[name + '_setRange'] = {'requires': [S, '%d <= minVal && minVal < %d' % (lo, hi), '%d <= maxVal && maxVal < %d' % (lo - 1, hi)], 'assigns': ['*self'],
@@ -239,6 +244,28 @@ SPEC += 'struct Domain ghost_dom0[CSP_MAXVARS];   /* domains at entry of makeArc
 CONTRACTS['CspSolver_makeArcConsistent']['ghost_entry'] = 'for (int ghost_i = 0; ghost_i < CSP_MAXVARS; ghost_i++) ghost_dom0[ghost_i] = self->domain.data[ghost_i];'
 CONTRACTS['CspSolver_makeArcConsistent']['assigns'].append('__CPROVER_object_whole(ghost_dom0)')
 
+SPEC += r'''
+int ghost_w;   /* witness: the constraint found violated by the consistency test */
+#define C_AT(self, i) ((self)->constr.data[i])
+#define C_APPLIES(self, i, varNo) (C_AT(self, i).v1 <= (varNo) && C_AT(self, i).v2 <= (varNo))
+#define C_SAT(self, i, vals) ((vals)->data[C_AT(self, i).v1] <= (vals)->data[C_AT(self, i).v2] + C_AT(self, i).c)
+#define C_IDX(self, i) (0 <= (i) && (i) < (self)->constr.size)
+'''
+SPEC += '#define VALS_RANGE(vals) (' + ' && '.join('(vals)->data[%d] >= -16 && (vals)->data[%d] < 48' % (k, k) for k in range(DATA_MAXV)) + ')\n'
+CONTRACTS['CspSolver_solveRecursive_check'] = {
+    'requires': _SHAPE + ['CONSTR_WF(self)', 'V2C_BELOW(self)', _VAR, '__CPROVER_is_fresh(values, sizeof(*values))', 'values->size == self->domain.size',
+                          '__CPROVER_is_fresh(values->data, CSP_MAXVARS * sizeof(int))', 'VALS_RANGE(values)'],
+    'assigns': ['ghost_w'],
+    # "valid" means: every constraint attached to varNo whose two variables are both assigned (index <= varNo) is satisfied (ghost_e: arbitrary constraint)
+    'ensures': ['__CPROVER_return_value ==> ((C_IDX(self, ghost_e) && CS_HAS(self->varToConstr.data[varNo], ghost_e) && C_APPLIES(self, ghost_e, varNo)) ==> C_SAT(self, ghost_e, values))',
+                # "invalid" has a witness: an attached constraint between assigned variables that is violated (no consistent value is rejected)
+                '!__CPROVER_return_value ==> (C_IDX(self, ghost_w) && CS_HAS(self->varToConstr.data[varNo], ghost_w) && C_APPLIES(self, ghost_w, varNo) && !C_SAT(self, ghost_w, values))'],
+    'ghost_at': [(r'allValid = false;', 'ghost_w = ci;')],
+    'loops': {0: {'assigns': 'constrMask, allValid, ghost_w',
+                  'invariant': ['allValid', 'CS_SUBSET(constrMask, self->varToConstr.data[varNo])',
+                                '(C_IDX(self, ghost_e) && CS_HAS(self->varToConstr.data[varNo], ghost_e) && !CS_HAS(constrMask, ghost_e) && C_APPLIES(self, ghost_e, varNo)) ==> C_SAT(self, ghost_e, values)']}},
+}
+HARNESS += 'void h_sr_check(void) { struct CspSolver* s; struct VecInt* v; int varNo; havoc_ghosts(); ghost_w = nondet_int(); CspSolver_solveRecursive_check(s, varNo, v); CANARY_POINT; }\n'
 for _f, _sig in (('makeEven', 'int v'), ('makeOdd', 'int v'), ('addMinVal', 'int v, int a'), ('addMaxVal', 'int v, int a')):
     decl = '; '.join(x.strip() for x in _sig.split(',')) + ';'
     args = ', '.join(x.strip().split()[-1] for x in _sig.split(','))
@@ -310,6 +337,8 @@ PROPERTIES = {'C20': [g.name for g in GROUPS]}
 # makeArcConsistent: the L-cut obligations "invariant base", "no solution value pruned at exit" and "domains only shrink at exit" close in
 # 13-24 s each in mode M, but the inductive step and "never returns false for a satisfiable system" did not finish in 15 min
 # (SAT reasoning about symbolic shifts of the 64-bit domain words); the group is therefore NOT part of the claim.
+GROUPS.append(Group('solveRecursive_check', 'h_sr_check', enforce='CspSolver_solveRecursive_check', replace=('ConstrSet_empty', 'ConstrSet_getMinBit', 'ConstrSet_clearBit'),
+                    loop_contracts=True, min_props=10, expect_loop_props=1, timeout=1800))
 PROPERTIES = {'C20': [g.name for g in GROUPS if g.name != 'makeArcConsistent']}
 ASSUMPTIONS = {'C20': ['callers respect the documented argument ranges of addMinVal/addMaxVal/setRange (the repo asserts in addVariable/addIneq; their callers in extproofkernel.cpp are outside the subset)']}
 NOT_DECIDED = {'C20': ['CspSolver::makeArcConsistent (loop invariant with a ghost solution written and cut mechanically, inductive step not discharged within 15 min by any back end tried)',
